@@ -39,9 +39,10 @@ class FnContract:
 
 
 class ClsContract:
-    def __init__(self, key, fields, bases=(), invariant=(), props=()):
+    def __init__(self, key, fields, bases=(), invariant=(), props=(), alias=None):
         self.key = key                  # 'module:Class'
-        self.name = key.split(':', 1)[1]
+        self.real = key.split(':', 1)[1]    # the class name in the source
+        self.name = alias or self.real      # registry-unique name used in type strings
         self.module = key.split(':', 1)[0]
         self.fields = dict(fields)      # field -> type string
         self.bases = list(bases)        # class names (contract level)
@@ -55,6 +56,7 @@ class Registry:
         self.recs = {}         # record name -> {key: type}
         self.defs = {}         # spec helper name -> (params, expr string)
         self.rec_optional = set()
+        self.by_real = {}      # (module, real class name) -> registry name
         self.class_ids = {}
 
     def fn(self, key, **kw):
@@ -64,11 +66,12 @@ class Registry:
         self.fns[key] = c
         return c
 
-    def cls(self, key, fields, bases=(), invariant=()):
-        c = ClsContract(key, fields, bases, invariant)
+    def cls(self, key, fields, bases=(), invariant=(), alias=None):
+        c = ClsContract(key, fields, bases, invariant, alias=alias)
         if c.name in self.classes:
             raise KeyError('duplicate class contract name ' + c.name)
         self.classes[c.name] = c
+        self.by_real[(c.module, c.real)] = c.name
         self.class_ids[c.name] = len(self.class_ids) + 1
         return c
 
@@ -81,6 +84,10 @@ class Registry:
 
     def define(self, name, params, expr):
         self.defs[name] = (list(params), expr)
+
+    def class_name(self, module, real):
+        "registry name of the class `real` defined in `module` (None if it has no contract)"
+        return self.by_real.get((module, real))
 
     # -- class helpers
     def field_decl(self, clsname, field):
